@@ -40,6 +40,10 @@ func genHTTP(rng *simkit.Rand, tier string, idx int) *simkit.Case {
 		k := "req"
 		if rng.Intn(8) == 0 {
 			k = "ws"
+		} else if rng.Intn(10) == 0 {
+			// the service is redeployed: every application of the endpoint disconnects and
+			// connects again, to the same or to another node, between two requests
+			k = "move"
 		}
 		c.Script = append(c.Script, simkit.Op{K: k, A: rng.Intn(1 << 30), B: rng.Intn(1 << 16), C: rng.Intn(1 << 16)})
 	}
@@ -58,6 +62,7 @@ type c08Plan struct {
 	spec     *respSpec
 	behave   string // ok | slow | tooslow | abort | noupstream | noendpoint
 	entry    int
+	home     int // the node the applications are connected to
 	bodyKind int
 }
 
@@ -193,12 +198,13 @@ func execHTTP(run *simkit.Run) {
 			return
 		}
 	}
+	kind := "http"
+	if c.On("agent") {
+		kind = "agent"
+	}
+	home := 0
 	for i := 0; i < c.Int("apps"); i++ {
-		kind := "http"
-		if c.On("agent") {
-			kind = "agent"
-		}
-		if _, err := w.listen("e1", kind, 0, ""); err != nil {
+		if _, err := w.listen("e1", kind, home, ""); err != nil {
 			run.Fail("SIM.setup", "listen", "%v", err)
 			return
 		}
@@ -217,7 +223,33 @@ func execHTTP(run *simkit.Run) {
 			w.wsUpgrade(op, timeout)
 			continue
 		}
+		if op.K == "move" {
+			// requests before and after the move must each reach an application that is
+			// connected at that moment: nothing learnt for an earlier request (a selected
+			// upstream, a connection to it or to the node that had it) may serve a later one
+			for _, a := range w.liveApps("e1") {
+				a.shutdown()
+			}
+			home = op.A % len(w.nodes)
+			moved := true
+			for i := 0; i < c.Int("apps"); i++ {
+				if _, err := w.listen("e1", kind, home, ""); err != nil {
+					run.Logf("move: listen on n%d failed: %v", home, err)
+					moved = false
+					break
+				}
+			}
+			if ok, why := w.waitSettled(200, true); !moved || !ok {
+				// routing after a move is C01/C04/C16 business; C08 says nothing about it
+				run.Logf("move: not settled (%s): the rest of the script is skipped", why)
+				run.Probe("c08.move_not_settled")
+				break
+			}
+			run.Probe("c08.upstreams_moved")
+			continue
+		}
 		p := w.planHTTP(op, timeout)
+		p.home = home
 		w.mu.Lock()
 		w.specs[p.req.ID] = p.spec
 		w.mu.Unlock()
@@ -235,7 +267,7 @@ func execHTTP(run *simkit.Run) {
 func (w *cluster3) judgeHTTP(p *c08Plan, res *httpResult, timeout, writeTO time.Duration) {
 	run := w.run
 	rq := p.req
-	forwarded := p.entry != 0
+	forwarded := p.entry != p.home
 	tag := fmt.Sprintf("%s %s %s via n%d (%s, forwarded=%v)", rq.ID, rq.Method, rq.Path, p.entry, p.behave, forwarded)
 	run.Logf("%s -> status=%d err=%v elapsed=%v", tag, res.Status, res.Err, res.Elapsed)
 	run.Probe("c08." + p.behave)
